@@ -761,7 +761,7 @@ class Interp(object):
         if cut is not None:
             o = cut(self, fr, cls, *args, **kwargs)
             c, e = cls.lookup('__init__')
-            if e is not None:
+            if e is not None and isinstance(o, Obj):
                 self.call(self.bind_entry(o, c, '__init__', e, fr), args, kwargs, fr)
             return o
         c, e = cls.lookup('__new__')
